@@ -4,6 +4,7 @@ import (
 	"context"
 	"errors"
 	"fmt"
+	"github.com/thushan/olla/internal/verifhook"
 	"net/http"
 	"time"
 
@@ -63,6 +64,7 @@ func (s *Service) proxyToSingleEndpoint(ctx context.Context, w http.ResponseWrit
 			panic(rec)
 		}
 	}()
+	verifhook.Point("proxy.engine", endpoint.Name)
 
 	targetURL := common.BuildTargetURL(r, endpoint, s.configuration.GetProxyPrefix())
 
